@@ -175,6 +175,15 @@ def evalLine (line : String) : String :=
     match unhex o, os.mapM unhex with
     | some ob, some osb => b2s (matchesOrigins osb ob)
     | _, _ => "bad-op"
+  | "cors" :: mode :: o :: os =>
+    -- origin: "absent" = no header, otherwise hex ("-" = present but empty); mode "http" = the
+    -- WebSocket verdict is not compared (the HTTP client library rewrites such header values)
+    match (if o == "absent" then some none else (unhex o).map some), os.mapM unhex with
+    | some ob, some osb =>
+      let c := corsDecision osb ob
+      (if c.refused then "refused" else "ok") ++ " acao=" ++ (match c.acao with | some a => hex a | none => "-") ++
+        " vary=" ++ b2s c.vary ++ " ws=" ++ (if mode == "http" then "skip" else b2s (wsOriginOK osb ob))
+    | _, _ => "bad-op"
   | ["lower", h] =>
     match unhex h with
     | some b => hex (toLowerASCII b)
